@@ -400,6 +400,18 @@ func runC15(env *Env) {
 		if string(x1) != string(x2) {
 			rep.Violate("C15-roundtrip", cs, "second serialisation differs from the first")
 		}
+		// parse results of the same bytes are independent: a model that its owner edits afterwards (process and flow
+		// node names, a condition's text) does not show in a later parse of those bytes
+		{
+			edited, _ := schema.Parse(x1)
+			c15Scribble(reflect.ValueOf(edited).Elem(), 0)
+			again, err := schema.Parse(x1)
+			if err != nil {
+				rep.Violate("C15-shared-state", cs, "the serialised document no longer parses after an earlier parse result of it was edited: "+err.Error())
+			} else if xa, _ := xml.Marshal(again); string(xa) != string(x2) {
+				rep.Violate("C15-shared-state", cs, "a parse of the same bytes made after an earlier parse result was edited differs from one made before (first difference at byte "+fmt.Sprint(firstDiff(string(xa), string(x2)))+")")
+			}
+		}
 		// every element with an id is retrievable by that id
 		var ids []string
 		c15Ids(reflect.ValueOf(d2).Elem(), &ids, 0)
@@ -508,4 +520,30 @@ func c15Texts(v reflect.Value) (out []string) {
 	}
 	walk(v, 0)
 	return
+}
+
+// c15Scribble edits a parsed model in place: every settable string reached through pointers, slices and structs below
+// the top level gets a mark appended (names, ids of nested elements, expression texts ...)
+func c15Scribble(v reflect.Value, depth int) {
+	if depth > 12 {
+		return
+	}
+	switch v.Kind() {
+	case reflect.Ptr, reflect.Interface:
+		if !v.IsNil() {
+			c15Scribble(v.Elem(), depth+1)
+		}
+	case reflect.Struct:
+		for i := 0; i < v.NumField(); i++ {
+			c15Scribble(v.Field(i), depth+1)
+		}
+	case reflect.Slice:
+		for i := 0; i < v.Len(); i++ {
+			c15Scribble(v.Index(i), depth+1)
+		}
+	case reflect.String:
+		if v.CanSet() && depth >= 2 {
+			v.SetString(v.String() + "~edited")
+		}
+	}
 }
